@@ -9,8 +9,9 @@ C2S: seeded random messages (arbitrary Unicode, arbitrary bytes, random directiv
      random shapes, validated by TLC the same way.
 
 Binding demonstrated during development (scratch worktree, notes/text.md): indentation of three
-spaces instead of four, `except Exception` narrowed to UnicodeError around getMessage (a mismatched
-%-argument then raises out of format) - each reported as VIOLATION.
+spaces instead of four; `except Exception` narrowed to UnicodeError, and (independent seeded change)
+to (TypeError, ValueError) around getMessage - a `%(k)s` message with a dict lacking the key
+(KeyError) or an argument whose __str__ raises RuntimeError then escapes format(); each reported.
 """
 import random
 
